@@ -152,6 +152,24 @@ theorem choosePath_spec (opt : Int) (n : Nat) :
     · have : ¬ opt ≤ 0 := by omega
       simp [h0, hn, this]
 
+/-- **Round trip on the raw path with a declared length.**  `Cipher.Encrypt` given
+`MessageDataLen = len ≤ len(MessageDataWithPadding)` (mtproto's raw branch always has equality; a caller
+may pass more bytes, which then travel as extra padding): the other side returns the same header fields,
+`MessageDataLen = len` and `Data()` = the first `len` bytes, as long as the caller's extra bytes leave the
+total padding within 1024 (`len(body) − len ≤ 757`). -/
+theorem decrypt_encryptData (P : Prims) (hP : LawfulPrims P) (side : Side) (ak keyId : Bytes)
+    (salt sid mid seq len : Nat) (body rnd c : Bytes)
+    (hk : keyId.length = 8) (h1 : salt < 2 ^ 64) (h2 : sid < 2 ^ 64) (h3 : mid < 2 ^ 64) (h4 : seq < 2 ^ 32)
+    (hmod : len % 4 = 0) (hl : len < 2 ^ 31) (hle : len ≤ body.length) (hextra : body.length - len ≤ 757)
+    (he : encryptData P side ak keyId salt sid mid seq len body rnd = .ok c) :
+    ∃ d, decrypt P side.flip ak keyId c = .ok d ∧
+      d.salt = salt ∧ d.sid = sid ∧ d.mid = mid ∧ d.seq = seq ∧ d.len = len ∧ d.payload = body.take len := by
+  obtain ⟨r, rest, _, _, hd⟩ :=
+    decrypt_encryptData' P hP side ak keyId salt sid mid seq len body rnd c hk h1 h2 h3 h4 hmod hl hle hextra he
+  refine ⟨_, hd, rfl, rfl, rfl, rfl, rfl, ?_⟩
+  simp only [Data.payload]
+  rw [List.take_append_of_le_length hle]
+
 /-- **Encryption is injective on (header, payload)** — even across different random streams: if two
 `Cipher.Encrypt` calls under the same key and direction produce the same ciphertext, they were given the
 same salt, session id, message id, sequence number and payload. -/
